@@ -42,6 +42,10 @@ var (
 )
 
 // Changed represents changes to a machine after message processing.
+//
+// When Deleted is set together with State, the machine was deleted and
+// then created again: what was known about the machine should be
+// forgotten and replaced by the given State and SpecSrc (if any).
 type Changed struct {
 	State   *core.State      `json:",omitempty"`
 	SpecSrc *crew.SpecSource `json:",omitempty"`
@@ -255,7 +259,15 @@ func (c *Crew) SetMachine(ctx context.Context, mid string, src *crew.SpecSource,
 // No error is returned if the machine doesn't exist.
 func (c *Crew) DeleteMachine(ctx context.Context, mid string) error {
 	delete(c.Machines, mid)
-	c.change(mid).Deleted = true
+
+	// Changes made before the deletion are moot.  Deleted stays
+	// set even if the machine is created again before the next
+	// GetChanged, which then reports a replacement.
+	ch := c.change(mid)
+	ch.Deleted = true
+	ch.State = nil
+	ch.SpecSrc = nil
+
 	return nil
 }
 
@@ -337,9 +349,17 @@ func (c *Crew) GetChanged(ctx context.Context) (map[string]*Changed, error) {
 		}
 
 		if change.Deleted {
-			changed[mid] = &Changed{
+			ched := &Changed{
 				Deleted: true,
 			}
+			if m, have := c.Machines[mid]; have {
+				// Deleted and created again since the
+				// last report: the old machine is to be
+				// forgotten and replaced by this one.
+				ched.State = m.State.Copy()
+				ched.SpecSrc = change.SpecSrc
+			}
+			changed[mid] = ched
 			continue
 		}
 
